@@ -126,7 +126,20 @@ extra10 = {
  "C17": "; marks on headers of a chain migrated from legacy files by this very start",
  "C18": "; lookups after every operation; grow, prune, grow, prune scenarios",
 }
+# additions of seed round 11
+extra11 = {
+ "C02": "; the mined activation-boundary header and the second real chain with its mutations are also offered to a repository configured for a network without chain split table",
+ "C05": "; five sources for one block (four never answer, one delivers; and four silent ones with the block leaving the best chain): every in-flight source of a finished or abandoned block must be told to cancel - explored is the window of the cancel loop (every schedule inside it, one canonical schedule before and after)",
+ "C06": "; a transaction delivered twice (by two peers, or twice by one) next to another that stays outstanding with a second announcer, then the retry poll",
+ "C09": "; two prunes with growth in between on one instance (the header file holding the prune boundary is rewritten after it was read)",
+ "C13": "; histories that differ in how often version / verack were received before the handshake completed (up to 4 each) are distinct states",
+ "C14": "; a secondary headers handler installed, verifying replies of 1 / 2 / 30 / 2000 headers, reads of any size / 7 / 700 bytes",
+ "C15": "; two further stages (before / after the handshake) on a repository without chain split points (any network but mainnet: empty verification locator)",
+ "C17": "; first starts through Load with a configured list that repeats a hash or holds two, configured hashes unmarked like any other, one configuration value handed to every instance of a history, the configured list merged again at every restart",
+}
 for k, v in extra.items():
+    checks[k]["text"] += v
+for k, v in extra11.items():
     checks[k]["text"] += v
 for k, v in extra10.items():
     checks[k]["text"] += v
